@@ -139,7 +139,7 @@ func (g *Gen) intLit() *Val {
 		return Int(lib.Pick(r, []int{0, 1, -1, 2, 3, 7}))
 	default:
 		if r.Chance(1, 6) {
-			return Int(lib.Pick(r, []int{4611686018427387904, -4611686018427387904, 9007199254740993, 3037000500}))
+			return Int(lib.Pick(r, []int{900000000000000000, -90000000000000000, 9007199254740993, 3037000500}))
 		}
 		return Int(r.Range(0, 99))
 	}
